@@ -13,6 +13,8 @@ use std::hash::{BuildHasher, Hash, Hasher};
 pub trait KeyT: Clone + Eq + Hash + std::fmt::Debug + for<'x> From<&'x KeyRef> + 'static {
     const TRACKED: bool;
     const NAME: &'static str;
+    /// `Clone` of this flavour is user code that reports itself (false for the `Copy` flavour)
+    const CLONE_IS_USER_CODE: bool = true;
     fn make(id: u8, tok: u32) -> Self;
     fn id(&self) -> u8;
     fn tok(&self) -> u32;
@@ -53,6 +55,7 @@ impl KeyT for TKey {
 }
 impl Clone for TKey {
     fn clone(&self) -> Self {
+        env::note_clone();
         env::tick(Class::Clone);
         TKey { id: self.id, tok: self.tok, serial: env::reg_new() }
     }
@@ -86,6 +89,7 @@ pub struct PKey {
 impl KeyT for PKey {
     const TRACKED: bool = false;
     const NAME: &'static str = "plain";
+    const CLONE_IS_USER_CODE: bool = false;
     fn make(id: u8, tok: u32) -> Self {
         PKey { id, tok }
     }
@@ -120,6 +124,7 @@ pub struct CKey {
 }
 impl Clone for CKey {
     fn clone(&self) -> Self {
+        env::note_clone();
         env::tick(Class::Clone);
         CKey { id: self.id, tok: self.tok }
     }
@@ -162,6 +167,7 @@ impl From<&KeyRef> for CKey {
 pub struct CVal(pub u32);
 impl Clone for CVal {
     fn clone(&self) -> Self {
+        env::note_clone();
         env::tick(Class::Clone);
         CVal(self.0)
     }
@@ -262,6 +268,7 @@ impl Default for TVal {
 pub const DEFAULT_TOK: u32 = 0xFFFF_FF01;
 impl Clone for TVal {
     fn clone(&self) -> Self {
+        env::note_clone();
         env::tick(Class::Clone);
         TVal { tok: self.tok, serial: env::reg_new() }
     }
